@@ -29,8 +29,11 @@ async fn run(name: &'static str, scripts: Vec<&'static str>, grouped: bool, grac
     let took = t0.elapsed().as_millis();
     tokio::time::sleep(Duration::from_millis(300)).await;
     let pids = std::fs::read_to_string(&pidfile).unwrap_or_default();
-    let alive: Vec<&str> = pids.split_whitespace().filter(|p| std::fs::read_to_string(format!("/proc/{p}/stat")).map(|s| !s.contains(") Z ")).unwrap_or(false)).collect();
-    let line = format!("{name} main={} took={took} grace={} recorded={} alive={}", if r.is_ok() { "ok" } else { "timeout" }, if graceful { GRACE_MS } else { 0 }, pids.split_whitespace().count(), alive.join(","));
+    let alive: Vec<&str> = pids.split_whitespace().filter(|p| *p != "L").filter(|p| std::fs::read_to_string(format!("/proc/{p}/stat")).map(|s| !s.contains(") Z ")).unwrap_or(false)).collect();
+    // the first recorded pid of a script is the process the job spawned (the group LEADER, `L:`); the others are further members of its group (`M:`)
+    let leaders: Vec<&str> = pids.lines().filter(|l| l.starts_with("L ")).map(|l| l[2..].trim()).collect();
+    let line = format!("{name} main={} took={took} grace={} recorded={} alive={}", if r.is_ok() { "ok" } else { "timeout" }, if graceful { GRACE_MS } else { 0 }, pids.split_whitespace().filter(|p| *p != "L").count(),
+        alive.iter().map(|p| format!("{}:{p}", if leaders.contains(p) { "L" } else { "M" })).collect::<Vec<_>>().join(","));
     for p in alive { let _ = std::process::Command::new("kill").args(["-9", p]).status(); }
     let _ = std::fs::remove_file(&pidfile);
     line
@@ -38,11 +41,11 @@ async fn run(name: &'static str, scripts: Vec<&'static str>, grouped: bool, grac
 
 #[tokio::main(flavor = "multi_thread", worker_threads = 8)]
 async fn main() {
-    let exits = "echo $$ >> PIDFILE; exec sleep 30";
-    let ignores = "trap '' TERM; echo $$ >> PIDFILE; while :; do sleep 0.1; done";
-    let plain_member = "echo $$ >> PIDFILE; sleep 30 & echo $! >> PIDFILE; wait";
-    let leader_ignores = "trap '' TERM; echo $$ >> PIDFILE; sleep 30 & echo $! >> PIDFILE; wait";
-    let member_ignores = "echo $$ >> PIDFILE; (trap '' TERM; echo $(exec sh -c 'echo $PPID') >> PIDFILE; exec sleep 30) & wait";
+    let exits = "echo L $$ >> PIDFILE; exec sleep 30";
+    let ignores = "trap '' TERM; echo L $$ >> PIDFILE; while :; do sleep 0.1; done";
+    let plain_member = "echo L $$ >> PIDFILE; sleep 30 & echo $! >> PIDFILE; wait";
+    let leader_ignores = "trap '' TERM; echo L $$ >> PIDFILE; sleep 30 & echo $! >> PIDFILE; wait";
+    let member_ignores = "echo L $$ >> PIDFILE; (trap '' TERM; echo $(exec sh -c 'echo $PPID') >> PIDFILE; exec sleep 30) & wait";
     let hs = vec![
         tokio::spawn(run("graceful-plain-exits", vec![exits], false, true)),
         tokio::spawn(run("graceful-plain-ignores", vec![ignores], false, true)),
@@ -53,6 +56,8 @@ async fn main() {
         tokio::spawn(run("abort-plain-ignores", vec![ignores], false, false)),
         tokio::spawn(run("abort-grouped-plain-member", vec![plain_member], true, false)),
         tokio::spawn(run("abort-grouped-member-ignores", vec![member_ignores], true, false)),
+        tokio::spawn(run("abort-grouped-exits", vec![exits], true, false)),
+        tokio::spawn(run("abort-grouped-leader-ignores-alone", vec![ignores], true, false)),
     ];
     for h in hs { println!("{}", h.await.unwrap()); }
 }
